@@ -195,6 +195,32 @@ theorem get2_ofFn (m n : Nat) (f : List Nat → R) (i j : Nat) (z : R) (hi : i <
   simp only [unravel, shapeSize_single, shapeSize_nil, Nat.div_one]
   rw [div_add_lt hj, mod_add_lt hj]
 
+theorem getD_of_lt (s : List Nat) (ax d : Nat) (h : ax < s.length) : s.getD ax d = s[ax] := by
+  simp [List.getD_eq_getElem?_getD, h]
+
+/-- replacing the axis entry only changes the middle component of the 3-d view -/
+theorem split3_set (s : List Nat) (ax n : Nat) (h : ax < s.length) :
+    split3 (s.set ax n) ax = ((split3 s ax).1, n, (split3 s ax).2.2) := by
+  simp [split3, List.take_set_of_le (Nat.le_refl ax), List.drop_set_of_lt (Nat.lt_succ_self ax),
+    List.getD_eq_getElem?_getD, h]
+
+/-- on a rank-2 tensor the generic multi-index read is `get2` -/
+theorem getD_pair (t : Tensor R) (m n i j : Nat) (z : R) (ht : t.shape = [m, n]) :
+    t.getD [i, j] z = t.get2 i j z := by
+  simp [Tensor.getD, Tensor.get2, ht, offset, shapeSize_single]
+
+theorem zipWith_getD (f : R → R → R) (a b : Tensor R) (n : Nat) (z : R)
+    (ha : n < a.data.size) (hb : n < b.data.size) :
+    (Tensor.zipWith f a b).data.getD n z = f (a.data.getD n z) (b.data.getD n z) := by
+  simp [Tensor.zipWith, Array.getD, ha, hb]
+
+theorem map_getD (f : R → R) (t : Tensor R) (n : Nat) (z : R) (hn : n < t.data.size) :
+    (Tensor.map f t).data.getD n z = f (t.data.getD n z) := by
+  simp [Tensor.map, Array.getD, hn]
+
+theorem size_of_ok (t : Tensor R) (h : t.ok = true) : t.data.size = shapeSize t.shape := by
+  simpa [Tensor.ok] using h
+
 end Tensor
 
 /-! ### unfolding `applyOp` at each operator -/
@@ -325,5 +351,96 @@ theorem applyOp_polyDiff_le (A : AOps R) (t : Tensor R) (ord k d : Nat)
   simp only [applyOp, POp.shape, List.map, ht, if_neg this]
   rfl
 end Unfold
+
+/-! ### the result shape of `applyOp` is the symbolic shape rule -/
+
+section Shape
+open Tensor PExpr
+variable {R : Type}
+
+/-- Every operator returns a tensor whose shape is `POp.shape` of the argument shapes. -/
+theorem applyOp_shape (A : AOps R) (op : POp) (args : List (Tensor R)) (r : Tensor R)
+    (h : applyOp A op args = some r) : op.shape (args.map (·.shape)) = some r.shape := by
+  unfold applyOp at h
+  simp only [Option.bind_eq_bind, Option.bind_eq_some_iff] at h
+  obtain ⟨s, hs, h⟩ := h
+  rw [hs]; congr 1
+  split at h
+  all_goals first
+    | (cases h; rfl)
+    | (exact absurd h (Option.some_ne_none _).symm)
+    | (cases h; simp only [POp.shape, List.map, Option.some.injEq] at hs; exact hs.symm)
+    | (cases h; simp only [POp.shape, List.map] at hs; (split at hs <;> cases hs); rfl)
+    | (rw [Option.bind_eq_some_iff] at h; obtain ⟨_, _, h⟩ := h; cases h; rfl)
+    | (rw [Option.bind_eq_some_iff] at h; obtain ⟨_, _, h⟩ := h
+       rw [Option.bind_eq_some_iff] at h; obtain ⟨_, _, h⟩ := h; cases h; rfl)
+    | (rw [Option.bind_eq_some_iff] at h; obtain ⟨_, _, h⟩ := h; cases h
+       simp only [POp.shape, List.map, Option.some.injEq] at hs; exact hs.symm)
+    | (split at h <;> first | (cases h; rfl) | (exact absurd h (Option.some_ne_none _).symm) | (split at h <;> cases h <;> rfl))
+
+mutual
+theorem shape_sound_aux (A : AOps R) (θ : Nat → Option (Array R)) (pre : R → R) :
+    ∀ (e : PExpr R) (t : Tensor R), PExpr.eval A θ pre e = .ok t → e.shape = some t.shape
+  | .tensor uid sh, t, h => by
+    rw [PExpr.eval] at h
+    rw [PExpr.shape]
+    split at h
+    · split at h
+      · cases h; rfl
+      · cases h
+    · cases h
+  | .ref uid sh, t, h => by
+    rw [PExpr.eval] at h
+    rw [PExpr.shape]
+    split at h
+    · split at h
+      · cases h; rfl
+      · cases h
+    · cases h
+  | .const sh vals, t, h => by
+    rw [PExpr.eval] at h
+    rw [PExpr.shape]
+    split at h
+    · cases h; rfl
+    · cases h
+  | .app op args, t, h => by
+    rw [PExpr.eval] at h
+    rw [PExpr.shape]
+    cases hv : PExpr.eval.evalList A θ pre args with
+    | error e => rw [hv] at h; cases h
+    | ok vs =>
+      rw [hv] at h
+      have hl := shapeList_sound_aux A θ pre args vs hv
+      rw [hl]
+      cases ha : applyOp A op vs with
+      | none => simp only [bind, Except.bind, ha] at h; cases h
+      | some r =>
+        simp only [bind, Except.bind, ha] at h
+        cases h
+        exact applyOp_shape A op vs _ ha
+theorem shapeList_sound_aux (A : AOps R) (θ : Nat → Option (Array R)) (pre : R → R) :
+    ∀ (es : List (PExpr R)) (ts : List (Tensor R)), PExpr.eval.evalList A θ pre es = .ok ts →
+      PExpr.shape.shapeList es = some (ts.map (·.shape))
+  | [], ts, h => by
+    rw [PExpr.eval.evalList] at h
+    cases h
+    rfl
+  | e :: es, ts, h => by
+    rw [PExpr.eval.evalList] at h
+    rw [PExpr.shape.shapeList]
+    cases hv : PExpr.eval A θ pre e with
+    | error e => rw [hv] at h; cases h
+    | ok v =>
+      rw [hv] at h
+      cases hvs : PExpr.eval.evalList A θ pre es with
+      | error e => rw [hvs] at h; cases h
+      | ok vs =>
+        rw [hvs] at h
+        cases h
+        rw [shape_sound_aux A θ pre e v hv, shapeList_sound_aux A θ pre es vs hvs]
+        rfl
+end
+
+end Shape
 
 end Cirkit
